@@ -9,7 +9,8 @@ Profiles
              found faces), shared faces pre-existing in either rotation and either side, all four deletion
              modes, property arrays on every entity kind, QTetAll (all 24 (halfface,start) choices per cell),
              collapses of collapsible and non-collapsible edges, deletions, garbage collection
-  tetmal     malformed stream: wrong valences, repeated vertices, degenerate cells (pillows, a halfface four
+  tetmal     malformed stream: wrong valences, repeated vertices, degenerate cells (pillows - also on FOUR vertices over a parallel
+             edge / on duplicate faces with the topology-checked add_cell -, a halfface four
              times), queries with arguments that do not belong together (-> empty results, UB lines)
   hexvalid   hex blocks (straight, bent, with pre-existing faces in other rotations), HAddCellV, checked AddC on
              permuted valid lists, QHexAll, deletions, garbage collection
@@ -242,10 +243,39 @@ class Gen(kgen.Gen):
         elif c == 10: self.do("@QTRI %d %d" % (hf, -1 if r.chance(1, 2) else r.pick(lv)))
         else: self.do("@QTTCV %d %d" % (cell, r.pick(lv)))
 
+    def pillow4(self):
+        """two pillows on FOUR vertices: (a,b,c) on both sides and (b,c,d) on both sides, the second triangle over a PARALLEL edge
+        b-c; either [hf, opp hf, x, opp x] or, with duplicate faces, without any opposite pair by handle.  Four triangles, four
+        distinct vertices, every halfedge matched once: the topology-checked add_cell must reject (fix 814053a)"""
+        r = self.r
+        lv = self.st().live_v()
+        if len(lv) < 4: return
+        a, b, c, d = r.shuffle(list(lv))[:4]
+        f1 = self.do("@AddFV %d %d %d" % (a, b, c)).result()
+        if not isinstance(f1, int): return
+        e1 = self.do("@AddE %d %d 1" % (b, c)).result()
+        e2 = self.do("@AddE %d %d 0" % (c, d)).result()
+        e3 = self.do("@AddE %d %d 0" % (d, b)).result()
+        if not all(isinstance(x, int) for x in (e1, e2, e3)): return
+        s = self.st()
+        def he(e, x): return 2 * e + (0 if s.E[e][0] == x else 1)
+        hes = [he(e1, b), he(e2, c), he(e3, d)]
+        f2 = self.do("@AddF 1 " + " ".join(map(str, hes))).result()
+        if not isinstance(f2, int): return
+        chk = 1        # only the CHECKED call: unchecked, the pillow is stored (caller's responsibility) and the impl-side oracle judges it
+        if r.chance(1, 2):
+            self.do("@AddC %d %d %d %d %d" % (chk, 2 * f1, 2 * f1 + 1, 2 * f2, 2 * f2 + 1))
+        else:
+            g1 = self.do("@AddF 1 " + " ".join(map(str, self.st().F[f1]))).result()
+            g2 = self.do("@AddF 1 " + " ".join(map(str, hes))).result()
+            if isinstance(g1, int) and isinstance(g2, int):
+                self.do("@AddC %d %d %d %d %d" % (chk, 2 * f1, 2 * g1 + 1, 2 * f2, 2 * g2 + 1))
+        self.do("QTetAll")
+
     def tet_malformed(self):
         s = self.st(); r = self.r
         lv, le, lf = s.live_v(), s.live_e(), s.live_f()
-        c = r.below(12)
+        c = r.below(13)
         if c == 0 and lv: self.do("@TAddCellV %d %s" % (r.below(2), " ".join(str(r.pick(lv)) for _ in range(r.pick([0, 3, 5, 4, 4])))))
         elif c == 1 and lv: self.do("@AddFV " + " ".join(str(r.pick(lv)) for _ in range(r.pick([1, 2, 4, 5]))))
         elif c == 2 and le: self.do("@AddF %d %s" % (r.below(2), " ".join(str(2 * r.pick(le) + r.below(2)) for _ in range(r.pick([0, 1, 2, 4, 3])))))
@@ -270,6 +300,7 @@ class Gen(kgen.Gen):
         elif c == 8: self.collapse_some()
         elif c == 9: self.do("@TAddCellV 1 %d %d %d %d" % (40 + r.below(5), 1, 2, 3))
         elif c == 10 and lv: self.do("@THalfEdge %d %d" % (r.pick(lv), r.pick(lv)))
+        elif c == 11: self.pillow4()
         else: self.tet_queries()
 
     # ------------------------------------------------------------------ hexes
